@@ -7,7 +7,10 @@ module-level parse_cardinality helpers when they exist).
 """
 import itertools
 import json
+import os
+import shutil
 import sys
+import tempfile
 
 import framework as fw
 
@@ -52,11 +55,12 @@ def card_out(c):
     return {"weird": repr(c)}
 
 
-def make_obj(kind, n):
-    """A fresh object of the kind with n children of the counted sort."""
+def make_obj(kind, n, dtype="int", dup=False):
+    """A fresh object of the kind with n children of the counted sort (dup: every value twice)."""
     import odml
     if kind == "val":
-        return odml.Property(name="p", values=list(range(n)) if n else None, dtype="int")
+        vals = [VALUE_POOL[dtype](i // 2 if dup else i) for i in range(n)]
+        return odml.Property(name="p", values=vals or None, dtype=dtype)
     sec = odml.Section(name="s", type="t")
     for i in range(n):
         if kind == "sec":
@@ -72,23 +76,47 @@ def count_children(kind, obj):
     return len(obj.sections) if kind == "sec" else len(obj.properties)
 
 
-def add_child(kind, obj, i):
+def add_child(kind, obj, i, how="add", dtype="int"):
+    """One more child (two for 'extend2'), through the different public ways of adding."""
     import odml
     if kind == "val":
-        obj.append(100 + i)
-    elif kind == "sec":
-        obj.append(odml.Section(name="n%d" % i, type="t"))
+        new = [VALUE_POOL[dtype](1000 + 10 * i), VALUE_POOL[dtype](1001 + 10 * i)]
+        if how == "insert":
+            obj.insert(0, new[0])
+        elif how == "extend2":
+            obj.extend(new)
+        elif how == "assign":
+            obj.values = obj.values + new[:1]
+        else:
+            obj.append(new[0])
+        return
+    if kind == "sec":
+        make = lambda name, **kw: odml.Section(name=name, type="t", **kw)
     else:
-        obj.append(odml.Property(name="n%d" % i, values=[1]))
+        make = lambda name, **kw: odml.Property(name=name, values=[1], **kw)
+    if how == "insert":
+        obj.insert(0, make("n%d" % i))
+    elif how == "extend2":
+        obj.extend([make("n%d" % i), make("m%d" % i)])
+    elif how == "assign":
+        make("n%d" % i, parent=obj)
+    else:
+        obj.append(make("n%d" % i))
 
 
-def remove_child(kind, obj):
+def remove_child(kind, obj, how="remove"):
     if kind == "val":
-        obj.remove(obj.values[-1])
-    elif kind == "sec":
-        obj.remove(obj.sections[-1])
-    else:
-        obj.remove(obj.properties[-1])
+        if how == "assign":
+            obj.values = obj.values[:-1]
+        else:
+            obj.remove(obj.values[0] if how == "remove_first" else obj.values[-1])
+        return
+    lst = obj.sections if kind == "sec" else obj.properties
+    obj.remove(lst[0] if how == "remove_first" else lst[-1])
+
+
+ADD_OPS = {"add": "add", "insert": "insert", "extend2": "extend2", "assign_add": "assign"}
+REMOVE_OPS = {"remove": "remove", "remove_first": "remove_first", "assign_remove": "assign"}
 
 
 def card_issues(kind, obj):
@@ -103,11 +131,32 @@ def card_issues(kind, obj):
     return out
 
 
+def card_issues_in(kind, doc, obj):
+    """The cardinality issues a validation of the whole document reports for obj."""
+    out = []
+    for e in doc.validate().errors:
+        if e.obj is obj and getattr(e.validation_id, "name", str(e.validation_id)) == RULE_ID[kind]:
+            out.append([RULE_ID[kind], e.rank])
+    return out
+
+
 def outside(card, n):
     if card is None:
         return False
     lo, hi = card
     return (lo is not None and n < lo) or (hi is not None and n > hi)
+
+
+def random_copy(rng):
+    """A generator of its own with a state derived from rng (keeps the older streams as they were)."""
+    import random
+    return random.Random(rng.random())
+
+
+def model_card(card):
+    """Cards the model's decoder understands: None or [a, b] over None / ints."""
+    return card is None or (isinstance(card, list) and len(card) == 2 and
+                            all(x is None or (isinstance(x, int) and not isinstance(x, bool)) for x in card))
 
 
 def is_normal(card):
@@ -124,6 +173,519 @@ def is_normal(card):
     if lo is not None and hi is not None and lo > hi:
         return False
     return True
+
+
+
+# ----------------------------------------------------------------------------- whole documents
+# Stream "doc": cardinalities on objects that live inside a Document together with the other
+# library features that change or describe child lists (link / include resolved and unresolved,
+# finalize / clean, clones, save + load, every way of adding and removing children), validated
+# the way a user validates: the whole Document, a sub tree, a single Property, a kept Validation
+# object that is run again.
+CARD_RULES = {"section_properties_cardinality": "prop", "section_sections_cardinality": "sec",
+              "property_values_cardinality": "val"}
+VALUE_POOL = {"int": lambda i: 100 + i, "string": lambda i: "v%d" % i, "float": lambda i: 0.5 + i,
+              "2-tuple": lambda i: "(%d;%d)" % (i, i + 1)}
+
+
+def gen_card(rng, near=None):
+    """None or a pair in normal form, preferably with bounds next to the count `near`."""
+    if rng.random() < 0.25:
+        return None
+    base = near if near is not None and rng.random() < 0.75 else rng.choice([0, 1, 2, 3, 4, 9, 10, 11])
+    lo = max(0, base + rng.choice([-1, 0, 0, 1, 1, 2]))
+    hi = max(1, base + rng.choice([-2, -1, -1, 0, 0, 1]))
+    shape = rng.choice(["min", "max", "both", "both"])
+    if shape == "min":
+        return [max(1, lo), None]
+    if shape == "max":
+        return [None, hi]
+    if lo > hi:
+        lo, hi = hi, lo
+    return [lo, hi]
+
+
+def gen_props(rng, prefix, k):
+    out = []
+    for i in range(k):
+        n = rng.choice([0, 1, 1, 2, 3, 3, 4, 10])
+        out.append({"name": None if rng.random() < 0.05 else "%sp%d" % (prefix, i), "n": n,
+                    "vc": gen_card(rng, n), "dtype": rng.choice(["int", "int", "string", "float", "2-tuple"]),
+                    "late": rng.random() < 0.5, "dup": rng.random() < 0.25})
+    return out
+
+
+def gen_plain(rng, name, depth, paths, path):
+    """A Section without link / include (a possible link target)."""
+    nsec = rng.choice([0, 0, 1, 2, 3]) if depth < 2 else 0
+    nprop = rng.choice([0, 1, 2, 2, 3])
+    here = path + "/" + name
+    paths.append(here)
+    spec = {"name": name, "props": gen_props(rng, name, nprop), "secs": [],
+            "pc": gen_card(rng, nprop), "sc": gen_card(rng, nsec), "late": rng.random() < 0.5}
+    for i in range(nsec):
+        spec["secs"].append(gen_plain(rng, "%ss%d" % (name, i), depth + 1, paths, here))
+    return spec
+
+
+def gen_user(rng, name, targets, ext_paths):
+    """A Section that refers to another one by link or include (stored unresolved)."""
+    spec = gen_plain(rng, name, 1, [], "")
+    if rng.random() < 0.1:
+        spec["name"] = None         # an unnamed Section (its id serves as name)
+    r = rng.random()
+    spec["link"] = None
+    spec["inc"] = None
+    if r < 0.5 and targets:
+        spec["link"] = rng.choice(targets)
+    elif r < 0.8 and ext_paths:
+        spec["inc"] = {"kind": "ext", "path": rng.choice([None] + ext_paths)}
+    elif r < 0.9:
+        spec["inc"] = {"kind": "missing", "path": rng.choice([None, "/e0"])}
+    else:
+        spec["link"] = "/no/such/section"
+    # bounds that the own children violate / meet now and the other way round once the reference is
+    # resolved (the target brings 0..3 more children)
+    own_p, own_s = len(spec["props"]), len(spec["secs"])
+    spec["pc"] = gen_card(rng, own_p + rng.choice([0, 0, 1, 2]))
+    spec["sc"] = gen_card(rng, own_s + rng.choice([0, 0, 1, 2]))
+    return spec
+
+
+DOC_SETTINGS = [None, 0, 1, 3, -1, {"t": [1, 2]}, {"t": [2, None]}, {"t": [None, 1]}, {"t": [0, 3]},
+                {"t": [2, 2]}, {"l": [1, 4]}, {"t": [3, 1]}, {"t": [-1, 2]}, {"t": [1, 2, 3]}, "a",
+                {"f": False, "fv": 2.5}, {"t": [None, None]}, {"t": [10, 11]}, {"t": [None, 10]}]
+
+
+def gen_steps(rng):
+    steps = []
+    for _ in range(rng.randrange(2, 7)):
+        o = rng.choice(["finalize", "finalize", "clean", "rt", "rt", "clone", "clone_sec", "add", "add",
+                        "remove", "remove", "clear", "set", "move", "merge"])
+        st = {"o": o, "t": rng.randrange(0, 1000), "sub": rng.randrange(0, 1000)}
+        if o == "rt":
+            st["fmt"] = rng.choice(["XML", "JSON", "YAML"])
+            st["via"] = rng.choice(["string", "file", "odml", "style", "backend_strict", "backend_lenient"])
+            st["warn"] = rng.random() < 0.3
+        elif o == "clone":
+            st["keep_id"] = rng.random() < 0.3
+        elif o == "clone_sec":
+            st["children"] = rng.random() < 0.5
+            st["keep_id"] = rng.random() < 0.2
+        elif o == "add":
+            st["child"] = rng.choice(["prop", "sec"])
+            st["how"] = rng.choice(["append", "insert", "extend", "ctor", "create", "assign"])
+            st["k"] = rng.choice([1, 1, 1, 2, 3])
+        elif o == "remove":
+            st["child"] = rng.choice(["prop", "sec"])
+            st["how"] = rng.choice(["remove_last", "remove_first", "assign"])
+        elif o == "clear":
+            st["child"] = rng.choice(["prop", "sec"])
+        elif o == "set":
+            st["kind"] = rng.choice(["a", "b"])
+            st["v"] = rng.choice(DOC_SETTINGS)
+            st["via"] = rng.choice(["attr", "attr", "method"])
+        elif o in ("move", "merge"):
+            st["to"] = rng.randrange(0, 1000)
+        steps.append(st)
+    return steps
+
+
+def gen_doc_case(rng):
+    targets = []
+    tops = []
+    ntop = rng.choice([1, 2, 2, 3])
+    for i in range(ntop):
+        tops.append(gen_plain(rng, "t%d" % i, 0, targets, ""))
+    ext = None
+    ext_paths = []
+    if rng.random() < 0.6:
+        ext = [gen_plain(rng, "e%d" % i, 1, ext_paths, "") for i in range(rng.choice([1, 2]))]
+    users = []
+    for i in range(rng.choice([1, 1, 2, 3])):
+        u = gen_user(rng, "u%d" % i, targets, ext_paths)
+        u["at"] = rng.choice(["top", "top", "holder", "target"])
+        if u["at"] == "target":
+            # inside the first target tree; may then only refer to later trees or files (no cycles)
+            later = [t for t in targets if not t.startswith("/t0/") and t != "/t0"]
+            if u["link"] is not None and u["link"] != "/no/such/section":
+                if later:
+                    u["link"] = rng.choice(later)
+                else:
+                    u["at"] = "top"
+        users.append(u)
+    return {"stream": "doc", "tops": tops, "ext": ext, "users": users, "steps": gen_steps(rng)}
+
+
+def build_section(spec, parent, url=None, log=None):
+    """Creates the Section of a spec below parent. Cardinalities are given to the constructor or,
+    for 'late' objects, assigned after the children exist (a history that changes the count)."""
+    import odml
+    kw = {}
+    if spec.get("link") is not None:
+        kw["link"] = spec["link"]
+    inc = spec.get("inc")
+    if inc is not None:
+        base = url if (inc["kind"] == "ext" and url) else "file:///nonexistent/c09/ext.xml"
+        kw["include"] = base + ("#" + inc["path"] if inc["path"] else "")
+    if not spec["late"]:
+        kw["prop_cardinality"] = None if spec["pc"] is None else tuple(spec["pc"])
+        kw["sec_cardinality"] = None if spec["sc"] is None else tuple(spec["sc"])
+    sec = odml.Section(name=spec["name"], type="t", parent=parent, **kw)
+    for p in spec["props"]:
+        vals = [VALUE_POOL[p["dtype"]](i // 2 if p.get("dup") else i) for i in range(p["n"])]
+        pk = {} if p["late"] or p["vc"] is None else {"val_cardinality": tuple(p["vc"])}
+        prop = odml.Property(name=p["name"], values=vals or None, dtype=p["dtype"], parent=sec, **pk)
+        if p["late"] and p["vc"] is not None:
+            prop.val_cardinality = tuple(p["vc"])
+        if log is not None:
+            log.append((prop, {"val": p["vc"]}))
+    for c in spec["secs"]:
+        build_section(c, sec, url, log)
+    if spec["late"]:
+        if spec["pc"] is not None:
+            sec.prop_cardinality = tuple(spec["pc"])
+        if spec["sc"] is not None:
+            sec.set_sections_cardinality(spec["sc"][0], spec["sc"][1])
+    if log is not None:
+        log.append((sec, {"prop": spec["pc"], "sec": spec["sc"]}))
+    return sec
+
+
+def walk(doc):
+    out = []
+    for sec in doc.itersections(recursive=True):
+        out.append(("sec", sec))
+        for prop in sec.properties:
+            out.append(("prop", prop))
+    return out
+
+
+class DocRun(object):
+    """Executes one 'doc' case on the library and records a snapshot after every step."""
+
+    def __init__(self, case, tmp):
+        self.case = case
+        self.tmp = tmp
+        self.serial = {}
+        self.alive = []          # keeps every object alive, so id() stays unique
+        self.fresh = 0
+        self.tools = {}
+        self.log = []            # (object, the cardinalities it was built with)
+
+    def oid(self, obj):
+        if id(obj) not in self.serial:
+            self.serial[id(obj)] = len(self.serial)
+            self.alive.append(obj)
+        return self.serial[id(obj)]
+
+    def writer(self, fmt):
+        """One writer / reader object per format for the whole case (they are used again and again)."""
+        from odml.tools.odmlparser import ODMLWriter
+        if fmt not in self.tools:
+            self.tools[fmt] = ODMLWriter(fmt)
+        return self.tools[fmt]
+
+    def reader(self, fmt, warn):
+        from odml.tools.odmlparser import ODMLReader
+        if (fmt, warn) not in self.tools:
+            self.tools[(fmt, warn)] = ODMLReader(fmt, show_warnings=warn)
+        return self.tools[(fmt, warn)]
+
+    def new_name(self, stem):
+        self.fresh += 1
+        return "%s%d" % (stem, self.fresh)
+
+    def build(self):
+        import odml
+        from odml.tools.odmlparser import ODMLWriter
+        case = self.case
+        url = None
+        if case["ext"]:
+            ext = odml.Document()
+            for spec in case["ext"]:
+                build_section(spec, ext)
+            path = os.path.join(self.tmp, "ext.xml")
+            with open(path, "w", encoding="utf-8") as fh:
+                fh.write(ODMLWriter("XML").to_string(ext))
+            url = "file://" + path
+        doc = odml.Document()
+        tops = [build_section(spec, doc, url, self.log) for spec in case["tops"]]
+        holder = None
+        for u in case["users"]:
+            if u["at"] == "holder":
+                if holder is None:
+                    holder = odml.Section(name="h", type="t", parent=doc)
+                build_section(u, holder, url, self.log)
+            elif u["at"] == "target":
+                build_section(u, tops[0], url, self.log)
+            else:
+                build_section(u, doc, url, self.log)
+        return doc
+
+    # -- observation
+    def issues(self, errors, index):
+        found = {}
+        for err in errors:
+            name = getattr(err.validation_id, "name", str(err.validation_id))
+            if name not in CARD_RULES:
+                continue
+            i = index.get(id(err.obj))
+            key = "%s:%s" % ("?" if i is None else i, CARD_RULES[name])
+            found.setdefault(key, []).append(err.rank)
+        return sorted([k, v] for k, v in found.items())
+
+    def snapshot(self, doc, kept, sub):
+        from odml.validation import Validation
+        objs = walk(doc)
+        index = dict((id(o), i) for i, (_k, o) in enumerate(objs))
+        table = []
+        for kind, o in objs:
+            if kind == "sec":
+                table.append({"k": "sec", "oid": self.oid(o), "path": o.get_path(),
+                              "prop": card_out(o.prop_cardinality), "n_prop": len(o.properties),
+                              "sec": card_out(o.sec_cardinality), "n_sec": len(o.sections),
+                              "ref": "link" if o.link is not None else ("include" if o.include is not None else None),
+                              "merged": bool(o.is_merged)})
+            else:
+                table.append({"k": "prop", "oid": self.oid(o), "path": o.get_path(),
+                              "val": card_out(o.val_cardinality), "n_val": len(o.values)})
+        means = {}
+        means["fresh"] = {"scope": "all", "issues": self.issues(Validation(doc).errors, index)}
+        means["method"] = {"scope": "all", "issues": self.issues(doc.validate().errors, index)}
+        if kept is not None and kept.obj is doc:
+            kept.run_validation()
+            means["reused"] = {"scope": "all", "issues": self.issues(kept.errors, index)}
+        secs = [o for k, o in objs if k == "sec"]
+        props = [o for k, o in objs if k == "prop"]
+        if secs:
+            root = secs[sub % len(secs)]
+            scope = [index[id(root)]]
+            for s in root.itersections(recursive=True):
+                scope.append(index[id(s)])
+                scope.extend(index[id(p)] for p in s.properties)
+            # (the Properties of root itself are not visited by a Section validation: no demand)
+            means["subtree"] = {"scope": sorted(set(scope)), "issues": self.issues(Validation(root).errors, index)}
+        if props:
+            prop = props[sub % len(props)]
+            means["single"] = {"scope": [index[id(prop)]], "issues": self.issues(Validation(prop).errors, index)}
+        # a Validation object of one's own with a single registered rule (the three rules are public
+        # functions of odml.validation; this is also what the setters do for their printed warning)
+        ck = ("prop", "sec", "val")[sub % 3]
+        try:
+            import odml.validation as ov
+            rule = getattr(ov, RULE_ID[ck])
+            own = Validation(doc, validate=False, reset=True)
+            own.register_custom_handler("property" if ck == "val" else "section", rule)
+            own.run_validation()
+            means["own_rule"] = {"scope": "all", "kinds": [ck], "issues": self.issues(own.errors, index)}
+        except (ImportError, AttributeError, TypeError):
+            pass
+        other = 0
+        for err in Validation(doc).errors:
+            name = getattr(err.validation_id, "name", str(err.validation_id))
+            if err.rank == "error" and name not in CARD_RULES:
+                other += 1
+        return {"objs": table, "means": means, "other_errors": other}
+
+    # -- steps
+    def add_to_section(self, sec, st):
+        import odml
+        made = []
+        for _ in range(st["k"] if st["how"] in ("extend",) else 1):
+            name = self.new_name("n")
+            if st["child"] == "sec":
+                made.append(lambda name=name, **kw: odml.Section(name=name, type="t", **kw))
+            else:
+                made.append(lambda name=name, **kw: odml.Property(name=name, values=[1], **kw))
+        how = st["how"]
+        if how == "ctor":
+            made[0](parent=sec)
+        elif how == "create":
+            if st["child"] == "sec":
+                sec.create_section(self.new_name("n"), "t")
+            else:
+                sec.create_property(self.new_name("n"), [1])
+        elif how == "insert":
+            sec.insert(0, made[0]())
+        elif how == "extend":
+            sec.extend([m() for m in made])
+        else:
+            sec.append(made[0]())
+
+    def add_to_property(self, prop, st):
+        dtype = str(prop.dtype) if prop.dtype in VALUE_POOL else None
+        if dtype is None:
+            dtype = "int" if not prop.values else None
+        if dtype is None:
+            return "skipped"
+        self.fresh += 1
+        new = [VALUE_POOL[dtype](1000 + self.fresh * 10 + j) for j in range(st["k"])]
+        how = st["how"]
+        if how == "insert":
+            prop.insert(0, new[0])
+        elif how == "extend":
+            prop.extend(new)
+        elif how in ("assign", "ctor", "create"):
+            prop.values = prop.values + new
+        else:
+            prop.append(new[0])
+        return None
+
+    def step(self, doc, st):
+        """-> (document afterwards, record of the step)"""
+        import odml
+        from odml.tools.odmlparser import ODMLWriter, ODMLReader
+        o = st["o"]
+        rec = {"o": o}
+        objs = walk(doc)
+        kind, target = objs[st["t"] % len(objs)] if objs else (None, None)
+        try:
+            if o == "finalize":
+                doc.finalize()
+            elif o == "clean":
+                doc.clean()
+            elif o == "clone":
+                doc = doc.clone(keep_id=st["keep_id"])
+            elif o == "clone_sec":
+                secs = [x for k, x in objs if k == "sec"]
+                if secs:
+                    src = secs[st["t"] % len(secs)]
+                    cl = src.clone(children=st["children"], keep_id=st["keep_id"])
+                    cl.name = self.new_name("cl")
+                    doc.append(cl)
+            elif o == "rt":
+                rec["phase"] = "save"
+                fmt, via = st["fmt"], st["via"]
+                if via.startswith("backend"):
+                    # the reader classes behind ODMLReader, with their strict / lenient option
+                    lenient = via == "backend_lenient"
+                    try:
+                        from odml.tools.xmlparser import XMLReader
+                        from odml.tools.dict_parser import DictWriter, DictReader
+                        from odml.info import FORMAT_VERSION
+                    except ImportError:
+                        via = "string"
+                if via == "string":
+                    text = self.writer(fmt).to_string(doc)
+                    rec["phase"] = "load"
+                    doc = self.reader(fmt, st["warn"]).from_string(text)
+                elif via.startswith("backend"):
+                    if fmt == "XML":
+                        text = self.writer(fmt).to_string(doc)
+                        rec["phase"] = "load"
+                        doc = XMLReader(ignore_errors=lenient, show_warnings=st["warn"]).from_string(text)
+                    else:
+                        data = {"Document": DictWriter().to_dict(doc), "odml-version": FORMAT_VERSION}
+                        rec["phase"] = "load"
+                        doc = DictReader(show_warnings=st["warn"], ignore_errors=lenient).to_odml(data)
+                else:
+                    path = os.path.join(self.tmp, "%s.%s" % (self.new_name("f"), fmt.lower()))
+                    if via == "odml":
+                        odml.save(doc, path, fmt)
+                        rec["phase"] = "load"
+                        doc = odml.load(path, fmt, show_warnings=st["warn"])
+                    else:
+                        kw = {"local_style": True} if (via == "style" and fmt == "XML") else {}
+                        self.writer(fmt).write_file(doc, path, **kw)
+                        rec["phase"] = "load"
+                        doc = self.reader(fmt, st["warn"]).from_file(path)
+                rec["phase"] = "done"
+            elif target is None:
+                rec["skipped"] = True
+            elif o == "add":
+                if kind == "sec":
+                    self.add_to_section(target, st)
+                elif self.add_to_property(target, st):
+                    rec["skipped"] = True
+            elif o in ("remove", "clear"):
+                while True:
+                    if kind == "prop":
+                        vals = target.values
+                        if not vals:
+                            break
+                        if o == "clear":
+                            target.values = []
+                        elif st["how"] == "assign":
+                            target.values = vals[:-1]
+                        else:
+                            target.remove(vals[-1] if st["how"] == "remove_last" else vals[0])
+                    else:
+                        lst = target.sections if st["child"] == "sec" else target.properties
+                        if not len(lst):
+                            break
+                        target.remove(lst[0] if (o == "remove" and st["how"] == "remove_first") else lst[-1])
+                    if o == "remove":
+                        break
+            elif o == "move":
+                dests = [x for k, x in objs if k == "sec"]
+                dest = dests[st["to"] % len(dests)]
+                movable = kind == "prop" or (not len(target.sections) and not target.can_be_merged)
+                inside = False
+                x = dest
+                while x is not None and kind == "sec":
+                    inside = inside or x is target
+                    x = getattr(x, "parent", None)
+                if movable and not inside and target.parent is not dest:
+                    target.parent.remove(target)
+                    target.name = self.new_name("mv")
+                    dest.append(target)
+                else:
+                    rec["skipped"] = True
+            elif o == "merge":
+                # Section.merge with an explicit source: the children of another (plain) Section are
+                # copied into the target
+                secs = [x for k, x in objs if k == "sec"]
+                dest = secs[st["t"] % len(secs)]
+                srcs = [x for x in secs if x is not dest and not x.can_be_merged
+                        and not any(y.can_be_merged for y in x.itersections(recursive=True))]
+                related = set()
+                x = dest
+                while x is not None:
+                    related.add(id(x))
+                    x = getattr(x, "parent", None)
+                srcs = [x for x in srcs if id(x) not in related]
+                if srcs:
+                    dest.merge(srcs[st["to"] % len(srcs)], strict=False)
+                else:
+                    rec["skipped"] = True
+            elif o == "set":
+                if kind == "prop":
+                    ck = "val"
+                else:
+                    ck = "prop" if st["kind"] == "a" else "sec"
+                rec.update(kind=ck, oid=self.oid(target), before=card_out(getattr(target, ATTR[ck])))
+                v = to_py(st["v"])
+                rec["outcome"] = "ok"
+                try:
+                    if st["via"] == "method" and isinstance(v, tuple) and len(v) == 2:
+                        meth = {"val": "set_values_cardinality", "sec": "set_sections_cardinality",
+                                "prop": "set_properties_cardinality"}[ck]
+                        getattr(target, meth)(v[0], v[1])
+                    else:
+                        setattr(target, ATTR[ck], v)
+                except Exception as exc:
+                    rec["outcome"] = fw.exc_name(exc)
+                rec["after"] = card_out(getattr(target, ATTR[ck]))
+        except Exception as exc:
+            rec["raised"] = fw.exc_name(exc)
+        return doc, rec
+
+    def run(self):
+        from odml.validation import Validation
+        doc = self.build()
+        kept = Validation(doc)
+        snaps = [self.snapshot(doc, kept, 0)]
+        recs = []
+        for st in self.case["steps"]:
+            new_doc, rec = self.step(doc, st)
+            if new_doc is not doc:
+                doc = new_doc
+                kept = Validation(doc)
+            recs.append(rec)
+            snaps.append(self.snapshot(doc, kept, st["sub"]))
+        built = [dict(want, oid=self.oid(o)) for o, want in self.log]
+        return {"snaps": snaps, "steps": recs, "built": built}
 
 
 # ----------------------------------------------------------------------------- the check
@@ -143,13 +705,23 @@ class C09(fw.Check):
         "lxml / json / PyYAML text<->tree (exercised end to end, not modelled)",
     ]
     assumptions = [
-        "str.isdigit() is modelled for ASCII digits only; the generated cardinality texts are ASCII",
+        "str.isdigit() is modelled for ASCII digits only; the model is asked about ASCII cardinality texts "
+        "only (texts with other digits / spaces are decided by the oracle alone)",
         "children are counted by len(); adding/removing goes through append/remove",
     ]
     rule = ("exhaustive grid of the property's quantifier: settings {None, bools, ints -1..4, "
             "(a,b)/[a,b] over {None,-1..4}, strings, floats, wrong-length tuples, other objects} "
             "x three kinds x previous setting; stored cards x child counts 0..5 x histories; "
             "stored cards x {XML,JSON,YAML}; plus random big ints and random cardinality texts. "
+            "Added after seeded round 2: the same assignments through the two argument methods and the "
+            "constructors (with a parent whose own cardinality the new child breaks), sequences of "
+            "assignments on one object; counts/bounds 8..12 and 99..101, all public ways of adding and "
+            "removing children, equal values, other value types; hand written entries inside complete "
+            "files (string and file entry points); random Documents with cardinalities on every level "
+            "combined with link / include (unresolved, resolved by finalize, cleaned, unresolvable), "
+            "merge, clones, save+load through every entry point and reader option, validated as a whole, "
+            "as a sub tree, as a single Property, by a kept Validation object and by an own single-rule "
+            "Validation after every step. "
             "A case is non-trivial when the assignment is accepted with a non-None result, or "
             "the validation reports an issue, or a persisted cardinality is non-None; distinct = "
             "distinct canonical JSON of the case.")
@@ -192,6 +764,12 @@ class C09(fw.Check):
             base.append("".join(rng.choice(alpha) for _ in range(rng.randrange(0, 9))))
         return base
 
+    # texts outside ASCII (digits of other scripts, superscripts, full width forms, no-break and line
+    # separator spaces); the model is not asked about them, the oracle is
+    EXOTIC_TEXTS = [u"(\u0662, \u0663)", u"(\u00b2, 3)", u"(\uff12, \uff13)", u"\u00a0(2, 3)\u00a0", u"(2,\u20283)",
+                    u"(2, 3)\u0085", u"\uff082, 3\uff09", u"(\u2461, 3)", u"(2\u00a0, 3)", u"(None, \u0663)",
+                    u"(1\u0660, 11)", u"(\u0661\u0660, 9)", u"(2, 3\ufeff)", u"(\u00bd, 1)"]
+
     def generate(self, tier, rng):
         cases = []
         prevs = [None, {"t": [1, 3]}]
@@ -217,12 +795,112 @@ class C09(fw.Check):
         for a in atoms:
             for b in atoms:
                 cases.append({"stream": "parse_list", "a": a, "b": b})
+        # everything below was added later and draws from a generator of its own, so the streams
+        # above stay what they were for every seed
+        return cases + self.generate_more(tier, random_copy(rng), stored, prevs)
+
+    def generate_more(self, tier, rng, stored, prevs):
+        cases = []
+        for t in self.EXOTIC_TEXTS:
+            cases.append({"stream": "parse_text", "s": t})
+            for kind in KINDS:
+                cases.append({"stream": "load_text", "kind": kind, "format": "XML", "s": t, "entry": "string"})
+        # the same grid once more with the other public ways of changing the child count (insert,
+        # extend, assignment, removal from the front, emptying) and other value types
+        histories = [["insert"], ["extend2"], ["assign_add"], ["remove_first"], ["assign_remove"], ["clear"],
+                     ["clear", "add"], ["extend2", "remove_first", "insert"], ["insert", "clear", "extend2"],
+                     ["assign_add", "assign_add", "assign_remove"], ["remove", "remove_first", "clear", "add"]]
+        for kind in KINDS:
+            for c in stored:
+                for n in range(0, 6):
+                    case = {"stream": "report", "kind": kind, "card": c, "n": n, "history": rng.choice(histories)}
+                    if kind == "val":
+                        case["dtype"] = rng.choice(["int", "string", "float", "2-tuple"])
+                        case["dup"] = rng.random() < 0.4       # equal values count one by one
+                    cases.append(case)
+        # counts and bounds with more than one digit (9 / 10 / 11 children, bounds 9..12, 100)
+        wide = [[None, 9], [None, 10], [None, 11], [9, None], [10, None], [11, None], [9, 10], [10, 10],
+                [10, 11], [2, 10], [9, 100], [10, 100], [100, None], [None, 100]]
+        for kind in KINDS:
+            for c in wide:
+                for n in (0, 2, 8, 9, 10, 11, 12):
+                    cases.append({"stream": "report", "kind": kind, "card": c, "n": n,
+                                  "history": rng.choice([[], ["add"], ["remove"], ["add", "add"], ["extend2"],
+                                                         ["remove", "remove_first"], ["clear"]])})
+            for c in wide + [[2, 100], [20, 100], [99, 100], [9, 9], [11, 11], [3, 20]]:
+                for fmt in ("XML", "JSON", "YAML"):
+                    cases.append({"stream": "persist", "kind": kind, "card": c, "format": fmt})
+            for c in ([None, 100], [100, None], [99, 101]):
+                for n in (99, 100, 101):
+                    cases.append({"stream": "report", "kind": kind, "card": c, "n": n,
+                                  "history": rng.choice([["add"], ["remove"], ["add", "add"], ["remove", "remove"]])})
+        # the other ways of making an assignment: the two argument methods and the constructors
+        # (with and without a parent whose own cardinality the new object breaks)
+        pool = self.settings(rng, "quick")
+        pairs = [s for s in pool if isinstance(s, dict) and "t" in s and len(s["t"]) == 2]
+        for kind in KINDS:
+            for s in pairs:
+                for prev in prevs:
+                    cases.append({"stream": "set", "kind": kind, "prev": prev, "v": s, "via": "method"})
+            for s in pool:
+                cases.append({"stream": "set", "kind": kind, "prev": None, "v": s, "via": "ctor"})
+                if isinstance(s, dict) and ("t" in s or "l" in s) and len(s.get("t", s.get("l"))) == 2:
+                    cases.append({"stream": "set", "kind": kind, "prev": None, "v": s, "via": "ctor_parent"})
+        # several assignments to the same object, refused ones in between, children edited in between
+        nseq = 150 if tier == "quick" else 3000
+        for _ in range(nseq):
+            seq = []
+            for _j in range(rng.randrange(2, 7)):
+                seq.append({"v": rng.choice(pool), "via": rng.choice(["attr", "attr", "method"]),
+                            "edit": rng.choice([None, None, "add", "remove"])})
+            cases.append({"stream": "set_seq", "kind": rng.choice(KINDS), "n": rng.randrange(0, 4), "seq": seq})
+        # cardinality texts / lists inside a complete file, read through the public readers
+        forms = ["(2, 3)", "(2,3)", " ( 2 , 3 ) ", "(None, 3)", "(3, None)", "(None, None)", "(3, 2)", "(2, 2)",
+                 "(0, 3)", "(0, 0)", "2, 3", "[2, 3]", "(a, 3)", "(-1, 3)", "(1, 2, 3)", "()", "x", "(10, 11)",
+                 "(9, 10)", "(2, 10)", "(20, 100)", "(None, 10)", "(10, None)", "(100, 1000)", "(12345678901234567890, None)"]
+        lists = [[2, 3], [None, 3], [3, None], [None, None], [3, 2], [2, 2], [0, 3], [0, 0], [10, 11], [9, 10],
+                 [None, 10], [10, None], [2, 10], [20, 100], ["None", 3], [3, "None"], ["2", "3"], [2], [1, 2, 3], [], [-1, 3],
+                 [True, 3], [1.5, 3], "(2, 3)", 3, None, [100, 1000]]
+        for kind in KINDS:
+            for t in forms:
+                for entry in ("string", "file"):
+                    cases.append({"stream": "load_text", "kind": kind, "format": "XML", "s": t, "entry": entry})
+            for v in lists:
+                for fmt in ("JSON", "YAML"):
+                    cases.append({"stream": "load_text", "kind": kind, "format": fmt, "v": v,
+                                  "entry": rng.choice(["string", "file"])})
+        ndoc = 500 if tier == "quick" else 6000
+        for _ in range(ndoc):
+            cases.append(gen_doc_case(rng))
         return cases
 
     # -- implementation ------------------------------------------------------
     def impl(self, case):
         import odml
         st = case["stream"]
+        if st == "set" and case.get("via") in ("ctor", "ctor_parent"):
+            # the assignment made by the constructor; with a parent that allows no further child
+            kind = case["kind"]
+            parent = None
+            if case["via"] == "ctor_parent":
+                parent = odml.Section(name="parent", type="t", sec_cardinality=(None, 1), prop_cardinality=(None, 1))
+                odml.Section(name="first", type="t", parent=parent)
+                odml.Property(name="first", values=[1], parent=parent)
+            obj = None
+            try:
+                if kind == "val":
+                    obj = odml.Property(name="p", values=[1, 2], parent=parent, val_cardinality=to_py(case["v"]))
+                else:
+                    obj = odml.Section(name="s", type="t", parent=parent, **{ATTR[kind]: to_py(case["v"])})
+                outc = "ok"
+            except Exception as exc:
+                outc = fw.exc_name(exc)
+            res = {"outcome": outc, "before": None, "children_kept": True,
+                   "after": None if obj is None else card_out(getattr(obj, ATTR[kind]))}
+            if parent is not None and obj is not None:
+                res["attached"] = obj.parent is parent and \
+                    any(x is obj for x in (parent.properties if kind == "val" else parent.sections))
+            return res
         if st == "set":
             kind = case["kind"]
             obj = make_obj(kind, 2)
@@ -231,26 +909,56 @@ class C09(fw.Check):
             before = card_out(getattr(obj, ATTR[kind]))
             n_before = count_children(kind, obj)
             try:
-                setattr(obj, ATTR[kind], to_py(case["v"]))
+                self.assign(obj, kind, to_py(case["v"]), case.get("via"))
                 outc = "ok"
             except Exception as exc:
                 outc = fw.exc_name(exc)
-            # the two-argument convenience setter must agree with the attribute
             return {"outcome": outc, "before": before, "after": card_out(getattr(obj, ATTR[kind])),
                     "children_kept": count_children(kind, obj) == n_before}
-        if st == "report":
+        if st == "set_seq":
+            # one object, several assignments in a row (accepted and refused), children edited between
             kind = case["kind"]
             obj = make_obj(kind, case["n"])
+            steps = []
+            for i, item in enumerate(case["seq"]):
+                before = card_out(getattr(obj, ATTR[kind]))
+                n_before = count_children(kind, obj)
+                try:
+                    self.assign(obj, kind, to_py(item["v"]), item["via"])
+                    outc = "ok"
+                except Exception as exc:
+                    outc = fw.exc_name(exc)
+                rec = {"outcome": outc, "before": before, "after": card_out(getattr(obj, ATTR[kind])),
+                       "children_kept": count_children(kind, obj) == n_before}
+                edit = None
+                try:
+                    if item["edit"] == "add":
+                        add_child(kind, obj, i)
+                    elif item["edit"] == "remove" and count_children(kind, obj) > 0:
+                        remove_child(kind, obj)
+                except Exception as exc:
+                    edit = fw.exc_name(exc)
+                rec.update(edit_refused=edit, n=count_children(kind, obj), issues=card_issues(kind, obj),
+                           after_edit=card_out(getattr(obj, ATTR[kind])))
+                steps.append(rec)
+            return {"steps": steps}
+        if st == "report":
+            kind = case["kind"]
+            dtype = case.get("dtype", "int")
+            obj = make_obj(kind, case["n"], dtype, case.get("dup", False))
             setattr(obj, ATTR[kind], tuple(case["card"]))
             card = card_out(getattr(obj, ATTR[kind]))
             trace = [{"n": count_children(kind, obj), "issues": card_issues(kind, obj)}]
             refused = []
             for i, op in enumerate(case["history"]):
                 try:
-                    if op == "add":
-                        add_child(kind, obj, i)
+                    if op in ADD_OPS:
+                        add_child(kind, obj, i, ADD_OPS[op], dtype)
+                    elif op == "clear":
+                        while count_children(kind, obj) > 0:
+                            remove_child(kind, obj)
                     elif count_children(kind, obj) > 0:
-                        remove_child(kind, obj)
+                        remove_child(kind, obj, REMOVE_OPS[op])
                 except Exception as exc:
                     refused.append([op, fw.exc_name(exc)])
                 trace.append({"n": count_children(kind, obj), "issues": card_issues(kind, obj)})
@@ -272,6 +980,17 @@ class C09(fw.Check):
             doc2 = ODMLReader(case["format"], show_warnings=False).from_string(text)
             obj2 = doc2.sections[0].properties[0] if kind == "val" else doc2.sections[0]
             return {"stored": stored, "emitted": emitted, "loaded": card_out(getattr(obj2, ATTR[kind]))}
+        if st == "load_text":
+            return self.load_text(case)
+        if st == "doc":
+            tmp = tempfile.mkdtemp(prefix="c09_")
+            old_tmp = tempfile.tempdir
+            tempfile.tempdir = tmp          # the include cache (odml.cache) lives below the temp dir
+            try:
+                return DocRun(case, tmp).run()
+            finally:
+                tempfile.tempdir = old_tmp
+                shutil.rmtree(tmp, True)
         if st == "parse_text":
             try:
                 from odml.tools.xmlparser import parse_cardinality
@@ -291,6 +1010,65 @@ class C09(fw.Check):
             except Exception as exc:
                 return {"raised": fw.exc_name(exc)}
         raise ValueError(st)
+
+    @staticmethod
+    def assign(obj, kind, value, via=None):
+        """The attribute, or the two argument method when the value is a pair."""
+        if via == "method" and isinstance(value, tuple) and len(value) == 2:
+            name = {"val": "set_values_cardinality", "sec": "set_sections_cardinality",
+                    "prop": "set_properties_cardinality"}[kind]
+            getattr(obj, name)(value[0], value[1])
+        else:
+            setattr(obj, ATTR[kind], value)
+
+    def load_text(self, case):
+        """A complete file with a hand written cardinality entry, read by the public readers."""
+        import odml
+        from odml.tools.odmlparser import ODMLWriter, ODMLReader
+        kind, fmt = case["kind"], case["format"]
+        key = ATTR[kind]
+        doc = odml.Document()
+        top = odml.Section(name="top", type="t", parent=doc)
+        odml.Property(name="p", values=[1, 2], parent=top)
+        text = ODMLWriter(fmt).to_string(doc)
+        if fmt == "XML":
+            from lxml import etree
+            root = etree.fromstring(text.encode("utf-8"))
+            node = root.find(".//property") if kind == "val" else root.find("section")
+            el = etree.SubElement(node, key)
+            el.text = case["s"]
+            text = etree.tostring(root, encoding="unicode")
+        else:
+            if fmt == "JSON":
+                data = json.loads(text)
+            else:
+                import yaml
+                data = yaml.safe_load(text)
+            sec = data["Document"]["sections"][0]
+            (sec["properties"][0] if kind == "val" else sec)[key] = case["v"]
+            if fmt == "JSON":
+                text = json.dumps(data)
+            else:
+                import yaml
+                text = yaml.safe_dump(data)
+        tmp = None
+        try:
+            if case["entry"] == "file":
+                tmp = tempfile.mkdtemp(prefix="c09_")
+                path = os.path.join(tmp, "in." + fmt.lower())
+                with open(path, "w", encoding="utf-8") as fh:
+                    fh.write(text)
+                doc2 = odml.load(path, fmt, show_warnings=False)
+            else:
+                doc2 = ODMLReader(fmt, show_warnings=False).from_string(text)
+        except Exception as exc:
+            return {"raised": fw.exc_name(exc)}
+        finally:
+            if tmp:
+                shutil.rmtree(tmp, True)
+        obj = doc2.sections[0].properties[0] if kind == "val" else doc2.sections[0]
+        n = count_children(kind, obj)
+        return {"loaded": card_out(getattr(obj, key)), "n": n, "issues": card_issues_in(kind, doc2, obj)}
 
     @staticmethod
     def emitted(kind, fmt, text):
@@ -318,7 +1096,36 @@ class C09(fw.Check):
         st = case["stream"]
         P = {"p": "C09"}
         if st == "set":
+            if not model_card(obs["before"]):
+                return []
             return [dict(P, op="set", old=obs["before"], v=to_model(case["v"]))]
+        if st == "set_seq":
+            reqs = []
+            for item, step in zip(case["seq"], obs["steps"]):
+                if model_card(step["before"]) and model_card(step["after_edit"]):
+                    reqs.append(dict(P, op="set", old=step["before"], v=to_model(item["v"])))
+                    reqs.append(dict(P, op="issue", c=step["after_edit"], n=step["n"]))
+                else:
+                    return []
+            return reqs
+        if st == "load_text":
+            if "raised" in obs:
+                return []
+            if case["format"] == "XML":
+                return [dict(P, op="parse_text", s=case["s"])] if case["s"].isascii() else []
+            v = case["v"]
+            if isinstance(v, list) and len(v) == 2:
+                enc = lambda x: ({"o": bool(x)} if isinstance(x, float) else x)
+                return [dict(P, op="parse_list", a=enc(v[0]), b=enc(v[1]))]
+            return []
+        if st == "doc":
+            reqs = []
+            for snap in obs["snaps"]:
+                for o in snap["objs"]:
+                    for kind in (("prop", "sec") if o["k"] == "sec" else ("val",)):
+                        if model_card(o[kind]):
+                            reqs.append(dict(P, op="issue", c=o[kind], n=o["n_" + kind]))
+            return reqs
         if st == "report":
             return [dict(P, op="issue", c=obs["card"], n=step["n"]) for step in obs["trace"]]
         if st == "persist":
@@ -344,7 +1151,34 @@ class C09(fw.Check):
     def compare(self, case, obs, answers):
         st = case["stream"]
         out = []
-        if st == "set":
+        if st == "set_seq" and answers:
+            for i, step in enumerate(obs["steps"]):
+                a, b = answers[2 * i], answers[2 * i + 1]
+                if a["ok"] != (step["outcome"] == "ok") or a["card"] != step["after"]:
+                    out.append("step %d: model %s, implementation %s / %s" % (i, a, step["outcome"], step["after"]))
+                if (b is not None) != bool(step["issues"]):
+                    out.append("step %d: model issue=%s, implementation issues=%s" % (i, b, step["issues"]))
+        elif st == "load_text" and answers:
+            want = answers[0]
+            if want is not None and not want[0] and not want[1]:
+                want = None     # the reader hands (0, 0) to the constructor, whose setter stores 'unset'
+            if want != obs["loaded"]:
+                out.append("model parses the entry to %s, implementation loaded %s" % (answers[0], obs["loaded"]))
+        elif st == "doc":
+            k = 0
+            for si, snap in enumerate(obs["snaps"]):
+                got = set(key for key, _r in snap["means"]["fresh"]["issues"])
+                for i, o in enumerate(snap["objs"]):
+                    for kind in (("prop", "sec") if o["k"] == "sec" else ("val",)):
+                        if not model_card(o[kind]):
+                            continue
+                        a = answers[k]
+                        k += 1
+                        if (a is not None) != (("%d:%s" % (i, kind)) in got):
+                            out.append("snapshot %d, %s %s cardinality %s with %d children: model issue=%s, "
+                                       "implementation reported=%s" % (si, o["path"], kind, o[kind], o["n_" + kind],
+                                                                       a, not (a is not None)))
+        elif st == "set" and answers:
             a = answers[0]
             if a["ok"] != (obs["outcome"] == "ok"):
                 out.append("model accepted=%s, implementation outcome=%s" % (a["ok"], obs["outcome"]))
@@ -372,23 +1206,42 @@ class C09(fw.Check):
         st = case["stream"]
         out = []
         if st == "set":
-            if not is_normal(obs["after"]):
-                out.append("stored cardinality %s is not in normal form" % (obs["after"],))
-            if obs["outcome"] not in ("ok", "ValueError"):
-                out.append("assignment raised %s, not ValueError" % obs["outcome"])
-            if obs["outcome"] != "ok" and obs["after"] != obs["before"]:
-                out.append("refused assignment changed the setting from %s to %s" % (obs["before"], obs["after"]))
-            if not obs["children_kept"]:
-                out.append("assignment changed the children")
-            v = case["v"]
-            # documented accept/refuse domain on the plain shapes
-            plain = self.expected_plain(v)
-            if plain is not None:
-                if plain == "refuse" and obs["outcome"] == "ok":
-                    out.append("invalid setting %s was accepted as %s" % (json.dumps(v), obs["after"]))
-                if plain != "refuse" and (obs["outcome"] != "ok" or obs["after"] != plain[0]):
-                    out.append("valid setting %s gave %s / %s, expected %s"
-                               % (json.dumps(v), obs["outcome"], obs["after"], plain[0]))
+            out += self.oracle_assignment(case["v"], obs)
+            if obs.get("attached") is False:
+                out.append("an object with an accepted cardinality was not added to its parent "
+                           "(the parent's own cardinality must not be enforced)")
+        elif st == "set_seq":
+            for i, (item, step) in enumerate(zip(case["seq"], obs["steps"])):
+                for f in self.oracle_assignment(item["v"], step):
+                    out.append("assignment %d: %s" % (i, f))
+                if step["edit_refused"]:
+                    out.append("assignment %d: adding/removing a child afterwards was refused: %s"
+                               % (i, step["edit_refused"]))
+                if step["after_edit"] != step["after"]:
+                    out.append("assignment %d: cardinality changed by the child edit" % i)
+                if is_normal(step["after_edit"]):
+                    want = outside(step["after_edit"], step["n"])
+                    if want != bool(step["issues"]):
+                        out.append("assignment %d: cardinality %s with %d children: warning reported=%s, expected=%s"
+                                   % (i, step["after_edit"], step["n"], bool(step["issues"]), want))
+        elif st == "load_text":
+            if "raised" in obs:
+                return out          # whether a reader may refuse a file is C16's business
+            if not is_normal(obs["loaded"]):
+                out.append("loaded cardinality %s is not in normal form" % (obs["loaded"],))
+            else:
+                want = self.canonical_entry(case)
+                if want is not None and obs["loaded"] != want:
+                    out.append("%s entry %r loaded as %s, expected %s"
+                               % (case["format"], case.get("s", case.get("v")), obs["loaded"], want))
+                if outside(obs["loaded"], obs["n"]) != bool(obs["issues"]):
+                    out.append("loaded cardinality %s with %d children: warning reported=%s"
+                               % (obs["loaded"], obs["n"], bool(obs["issues"])))
+                for iss in obs["issues"]:
+                    if iss[1] != "warning":
+                        out.append("cardinality issue has rank %s" % iss[1])
+        elif st == "doc":
+            out += self.oracle_doc(case, obs)
         elif st == "report":
             for step in obs["trace"]:
                 want = outside(obs["card"], step["n"])
@@ -405,12 +1258,154 @@ class C09(fw.Check):
                 out.append("cardinality changed by child edits")
             if obs["card"] != case["card"]:
                 out.append("valid cardinality %s stored as %s" % (case["card"], obs["card"]))
+        elif st in ("parse_text", "parse_list") and "parsed" in obs:
+            # what the file readers hand to the constructors: unset or a (min, max) pair (never half
+            # converted text, floats, negative numbers, min > max) and exactly the pair for the
+            # writers' own form
+            if not is_normal(obs["parsed"]) and obs["parsed"] != [None, None]:
+                out.append("parsed cardinality %s is not in normal form" % (obs["parsed"],))
+            if st == "parse_text":
+                want = self.canonical_entry({"format": "XML", "s": case["s"]})
+            else:
+                want = self.canonical_entry({"format": "JSON", "v": [case["a"], case["b"]]})
+            if want is not None and obs["parsed"] != want:
+                out.append("entry %r parsed as %s, expected %s"
+                           % (case.get("s", [case.get("a"), case.get("b")]), obs["parsed"], want))
         elif st == "persist":
             if obs["stored"] != case["card"]:
                 out.append("valid cardinality %s stored as %s" % (case["card"], obs["stored"]))
             if obs["loaded"] != obs["stored"]:
                 out.append("%s %s cardinality %s loaded back as %s"
                            % (case["format"], case["kind"], obs["stored"], obs["loaded"]))
+        return out
+
+    def oracle_assignment(self, v, obs):
+        """The clauses about one assignment (normal form, ValueError, refusal keeps, documented domain)."""
+        out = []
+        if not is_normal(obs["after"]):
+            out.append("stored cardinality %s is not in normal form" % (obs["after"],))
+        if obs["outcome"] not in ("ok", "ValueError"):
+            out.append("assignment raised %s, not ValueError" % obs["outcome"])
+        if obs["outcome"] != "ok" and obs["after"] != obs["before"]:
+            out.append("refused assignment changed the setting from %s to %s" % (obs["before"], obs["after"]))
+        if not obs["children_kept"]:
+            out.append("assignment changed the children")
+        # documented accept/refuse domain on the plain shapes
+        plain = self.expected_plain(v)
+        if plain is not None:
+            if plain == "refuse" and obs["outcome"] == "ok":
+                out.append("invalid setting %s was accepted as %s" % (json.dumps(v), obs["after"]))
+            if plain != "refuse" and (obs["outcome"] != "ok" or obs["after"] != plain[0]):
+                out.append("valid setting %s gave %s / %s, expected %s"
+                           % (json.dumps(v), obs["outcome"], obs["after"], plain[0]))
+        return out
+
+    @staticmethod
+    def canonical_entry(case):
+        """The cardinality a file entry in the writers' own form stands for (None = no opinion)."""
+        if case["format"] == "XML":
+            import re
+            m = re.match(r"^\((None|[0-9]+), (None|[0-9]+)\)$", case["s"])
+            if not m:
+                return None
+            pair = [None if g == "None" else int(g) for g in m.groups()]
+        else:
+            pair = case["v"]
+            if not (isinstance(pair, list) and len(pair) == 2 and
+                    all(x is None or (isinstance(x, int) and not isinstance(x, bool)) for x in pair)):
+                return None
+        # only what a writer can emit: a stored cardinality, which is in normal form
+        # ((0, 0), (0, None), (None, 0) are never stored: the setters normalise them to 'unset')
+        return pair if is_normal(pair) and (pair[0] or pair[1]) else None
+
+    def oracle_doc(self, case, obs):
+        out = []
+        snaps = obs["snaps"]
+        first = dict((x["oid"], x) for x in snaps[0]["objs"])
+        for want in obs["built"]:
+            have = first.get(want["oid"])
+            for k in ("prop", "sec", "val"):
+                if k in want and (have is None or have[k] != want[k]):
+                    out.append("as built: valid %s cardinality %s stored as %s (%s)"
+                               % (k, want[k], None if have is None else have[k],
+                                  "object missing" if have is None else have["path"]))
+        for si, snap in enumerate(snaps):
+            where = "after step %d (%s)" % (si, case["steps"][si - 1]["o"]) if si else "as built"
+            objs = snap["objs"]
+            for o in objs:
+                for kind in (("prop", "sec") if o["k"] == "sec" else ("val",)):
+                    if not is_normal(o[kind]):
+                        out.append("%s: %s %s cardinality %s is not in normal form" % (where, o["path"], kind, o[kind]))
+            for name, m in sorted(snap["means"].items()):
+                got = {}
+                for key, ranks in m["issues"]:
+                    got[key] = ranks
+                    if key.startswith("?"):
+                        out.append("%s, %s validation: a cardinality issue is reported for an object that is "
+                                   "not part of the validated document" % (where, name))
+                    for r in ranks:
+                        if r != "warning":
+                            out.append("%s, %s validation: cardinality issue has rank %s" % (where, name, r))
+                scope = range(len(objs)) if m["scope"] == "all" else m["scope"]
+                for i in scope:
+                    o = objs[i]
+                    for kind in (("prop", "sec") if o["k"] == "sec" else ("val",)):
+                        if not is_normal(o[kind]) or kind not in m.get("kinds", KINDS):
+                            continue
+                        want = outside(o[kind], o["n_" + kind])
+                        have = ("%d:%s" % (i, kind)) in got
+                        if want != have:
+                            out.append("%s, %s validation: %s%s %s cardinality %s with %d children: warning "
+                                       "reported=%s, expected=%s"
+                                       % (where, name, o["path"],
+                                          " (%s%s)" % (o["ref"], ", merged" if o["merged"] else "") if o.get("ref") else "",
+                                          kind, o[kind], o["n_" + kind], have, want))
+        for si, (st, rec) in enumerate(zip(case["steps"], obs["steps"])):
+            before, after = snaps[si], snaps[si + 1]
+            o = st["o"]
+            if o in ("add", "remove", "clear", "move"):
+                if "raised" in rec:
+                    out.append("step %d: %s of a child was refused: %s" % (si + 1, o, rec["raised"]))
+                old = dict((x["oid"], x) for x in before["objs"])
+                for x in after["objs"]:
+                    y = old.get(x["oid"])
+                    if y is not None and any(x[k] != y[k] for k in ("prop", "sec", "val") if k in x):
+                        out.append("step %d: cardinality of %s changed by a child edit" % (si + 1, x["path"]))
+            elif o == "set" and "outcome" in rec:
+                for f in self.oracle_assignment(st["v"], dict(rec, children_kept=True)):
+                    out.append("step %d: %s" % (si + 1, f))
+                old = dict((x["oid"], x) for x in before["objs"])
+                for x in after["objs"]:
+                    y = old.get(x["oid"])
+                    if y is None:
+                        continue
+                    for k in ("prop", "sec", "val"):
+                        if k in x and x[k] != y[k] and not (x["oid"] == rec["oid"] and k == rec["kind"]):
+                            out.append("step %d: the assignment changed the %s cardinality of %s"
+                                       % (si + 1, k, x["path"]))
+                    if any(x[k] != y[k] for k in ("n_prop", "n_sec", "n_val") if k in x):
+                        out.append("step %d: the assignment changed the children of %s" % (si + 1, x["path"]))
+            elif o == "rt":
+                if "raised" in rec:
+                    if not before["other_errors"]:
+                        out.append("step %d: %s %s of a document without errors failed: %s"
+                                   % (si + 1, st["fmt"], rec.get("phase"), rec["raised"]))
+                    continue
+                new = dict((x["path"], x) for x in after["objs"])
+                if len(new) != len(after["objs"]) or len(set(x["path"] for x in before["objs"])) != len(before["objs"]):
+                    continue        # ambiguous paths: no comparison
+                for y in before["objs"]:
+                    x = new.get(y["path"])
+                    for k in ("prop", "sec", "val"):
+                        if k in y and (x is None or x.get(k) != y[k]) and (x is not None or y[k] is not None):
+                            out.append("step %d: %s %s cardinality %s of %s loaded back as %s"
+                                       % (si + 1, st["fmt"], k, y[k], y["path"],
+                                          "nothing (object missing)" if x is None else x.get(k)))
+            elif o == "clone" and "raised" not in rec:
+                if [x["k"] for x in before["objs"]] == [x["k"] for x in after["objs"]]:
+                    for y, x in zip(before["objs"], after["objs"]):
+                        if any(x[k] != y[k] for k in ("prop", "sec", "val") if k in x):
+                            out.append("step %d: the clone of %s has another cardinality" % (si + 1, y["path"]))
         return out
 
     @staticmethod
@@ -458,6 +1453,15 @@ class C09(fw.Check):
             return ("persist:" + case["format"], obs.get("loaded") is not None)
         if st in ("parse_text", "parse_list"):
             return (st + ":" + ("some" if obs.get("parsed") else "none"), bool(obs.get("parsed")))
+        if st == "set_seq":
+            acc = sum(1 for x in obs.get("steps", []) if x["outcome"] == "ok" and x["after"] is not None)
+            return ("set_seq:%s" % ("some" if acc else "none"), acc > 0)
+        if st == "load_text":
+            return ("load_text:" + case["format"], obs.get("loaded") is not None)
+        if st == "doc":
+            any_issue = any(m["issues"] for snap in obs.get("snaps", []) for m in snap["means"].values())
+            refs = any(o.get("ref") for snap in obs.get("snaps", []) for o in snap["objs"])
+            return ("doc:%s%s" % ("issue" if any_issue else "none", "+ref" if refs else ""), any_issue)
         return (st, True)
 
 
